@@ -287,6 +287,12 @@ def fam_bank_labelalign(k):
     return {"main.asm": "#bankdef b\n{\n    #addr 0\n    #outp 0\n    #labelalign %d\n}\n#d8 1\nl:\n#d8 2\n" % pow2(k)}, ("either", None)
 
 
+def fam_labelalign_two(k):
+    # every top-level label is padded up to the alignment: the second one needs a position of twice the alignment
+    src = "#bankdef b\n{\n    #addr 0\n    #outp 0\n    #labelalign %d\n}\n#res 1\nfirst:\n#res 1\nsecond:\n#res 1\nthird:\n" % pow2(k)
+    return {"main.asm": src}, ("either", None)
+
+
 def fam_literal_digits(k):
     return {"main.asm": "x = 0x" + "0" * k + "1\n#d8 x[7:0]\n"}, ("either", "01")
 
@@ -370,6 +376,7 @@ FAMILIES = {
     "bankdef-bits": (fam_bank_bits, POW_Q, POW_T),
     "bankdef-bits-times-size": (fam_bank_bits_size, [2, 10, 30, 31, 32, 33, 62, 63, 64, 65, 66], list(range(0, 70, 1))),
     "bankdef-labelalign": (fam_bank_labelalign, POW_Q, POW_T),
+    "labelalign-several-labels": (fam_labelalign_two, POW_Q + [61, 62], POW_T),
     "hex-literal-digits": (fam_literal_digits, [1, 100, 10000, 100000, 1000000], [1, 10, 100, 1000, 10000, 100000, 1000000, 5000000]),
     "decimal-literal-digits": (fam_decimal_digits, [1, 100, 1000, 10000, 100000], [1, 10, 100, 1000, 10000, 100000, 300000]),
     "squaring-chain": (fam_mul_double, [1, 5, 10, 20, 25, 28, 29, 30, 31, 40, 64], list(range(1, 40)) + [64, 100]),
